@@ -15,6 +15,7 @@ func Verif_Step_sack_arb() {
 	d, sink, src, _, target, min, m := vSetup()
 	P := V.Bytes("P", L)
 	N.BoundArb4(P)
+	V.ClockAdvance(time.Duration(V.U32("flight"))) // the reply arrives an arbitrary time after the last send
 	src.Next = append([]byte(nil), P...)
 	resp, err := d.ReceiveProbe(100 * time.Millisecond)
 	if err != nil {
@@ -37,7 +38,9 @@ func Verif_Step_sack_arb() {
 	V.Assert(V.All(ttl >= min, ttl <= m), "C01/ttl-was-sent")
 	V.Assume(V.All(ttl >= min, ttl <= m))
 	ihl := V.Concretize(int(P[0] & 0xf))
-	pr := sink.Pkts[V.Concretize(int(ttl-min))]
+	idx := V.Concretize(int(ttl - min))
+	pr := sink.Pkts[idx]
+	V.Assert(resp.RTT == time.Duration(V.NowNs()-sink.Times[idx]), "C05/rtt-send-to-receive-same-probe")
 	V.Assert(resp.IP == N.Src4(P), "C01/responder")
 	isTCP := P[9] == 6
 	if isTCP {
@@ -78,6 +81,7 @@ func Verif_Step_sack_layout() {
 		o += 12
 	}
 	V.Assume(V.All(P[o] == 1, P[o+1] == 1, P[o+2] == 5, int(P[o+3]) == 2+8*nb))
+	V.ClockAdvance(time.Duration(V.U32("flight"))) // the reply arrives an arbitrary time after the last send
 	src.Next = append([]byte(nil), P...)
 	resp, err := d.ReceiveProbe(100 * time.Millisecond)
 	if err != nil {
@@ -91,7 +95,9 @@ func Verif_Step_sack_layout() {
 	ttl := resp.TTL
 	V.Assert(V.All(ttl >= min, ttl <= m), "C01/ttl-was-sent")
 	V.Assume(V.All(ttl >= min, ttl <= m))
-	pr := sink.Pkts[V.Concretize(int(ttl-min))]
+	idx := V.Concretize(int(ttl - min))
+	pr := sink.Pkts[idx]
+	V.Assert(resp.RTT == time.Duration(V.NowNs()-sink.Times[idx]), "C05/rtt-send-to-receive-same-probe")
 	rel, found := vMinSack(P[40:], d.state.localInitSeq)
 	V.Assert(V.All(vOnTuple(P, pr), P[33]&0x07 == 0, found, rel == uint32(ttl)), "C01/genuine")
 	V.Assert(resp.IP == N.Src4(P), "C01/responder")
